@@ -319,6 +319,33 @@ def _literal_result(e):
     return None
 
 
+# overrides of the exact classes whose form is checked one by one below; any other override of an engine method must be the base method itself up to Decimal constants
+CHECKED_OVERRIDES = ("now", "create_starting_servers", "increment_time", "get_service_time", "inter_arrival")
+
+
+def _same_modulo_decimal(fn, base):
+    class N(ast.NodeTransformer):
+        def visit_Call(self, n):
+            self.generic_visit(n)
+            if isinstance(n.func, ast.Name) and n.func.id == "Decimal" and len(n.args) == 1 and isinstance(n.args[0], ast.Constant):
+                v = str(n.args[0].value).lower().strip("+")
+                if v in ("inf", "infinity"):
+                    return ast.Call(func=ast.Name(id="float", ctx=ast.Load()), args=[ast.Constant(value="inf")], keywords=[])
+                try:
+                    return ast.Constant(value=float(v))
+                except ValueError:
+                    return n
+            if isinstance(n.func, ast.Name) and n.func.id == "float" and len(n.args) == 1 and isinstance(n.args[0], ast.Constant) and str(n.args[0].value).lower() in ("inf", "infinity"):
+                return ast.Call(func=ast.Name(id="float", ctx=ast.Load()), args=[ast.Constant(value="inf")], keywords=[])
+            return n
+        def visit_Constant(self, n):
+            return ast.Constant(value=float(n.value)) if isinstance(n.value, (int, float)) and not isinstance(n.value, bool) else n
+    def body(f):
+        b = [s_ for s_ in f.body if not (isinstance(s_, ast.Expr) and isinstance(s_.value, ast.Constant) and isinstance(s_.value.value, str))]
+        return [ast.dump(N().visit(rules.clone(s_))) for s_ in b]
+    return body(fn) == body(base) and [a.arg for a in fn.args.args] == [a.arg for a in base.args.args]
+
+
 def overrides(ctx, P):
     ob = ctx.ob("OVR", "exact overrides: increment_time = Decimal(str(a)) + Decimal(str(b)); now/get_service_time/inter_arrival wrap the base value in Decimal(str(.)); call-compatible; same servers built")
     for cname, base in (("ExactNode", "Node"), ("ExactArrivalNode", "ArrivalNode")):
@@ -331,6 +358,10 @@ def overrides(ctx, P):
             ob.seen("%s.%s" % (cname, m))
             if r is None:
                 continue
+            if m not in CHECKED_OVERRIDES and not _same_modulo_decimal(fn, r[1]):
+                ctx.violation(ob, "R12.override", "%s.%s" % (cname, m), "override of %s.%s" % (r[0].name, m), "override-differs-from-base",
+                              "%s re-implements %s.%s differently (beyond writing Decimal constants): the exact run then differs from the floating-point run in more than "
+                              "rounding -- e.g. samples drawn in another order" % (cname, r[0].name, m), loc(fn))
             a, b = fn.args, r[1].args
             if len(a.args) != len(b.args) and not (len(a.args) - len(a.defaults) <= len(b.args) - len(b.defaults) and len(a.args) >= len(b.args)):
                 ctx.violation(ob, "R12.override", "%s.%s" % (cname, m), "(%s)" % ", ".join(x.arg for x in a.args), "signature-mismatch", "override is not call-compatible with %s.%s" % (base, m), loc(fn))
